@@ -145,7 +145,9 @@ func jobsFor(prop, tier string) []*Job {
 		}
 		for kind := 0; kind < 2; kind++ {
 			for op0 := 0; op0 < 3; op0++ {
-				add(&Job{Name: fmt.Sprintf("O2-history/kind=%d,k=%d,op0=%d", kind, k, op0), Pkg: "roundrobin", Harness: "VerifC02History", Params: p("kind", kind, "k", k, "op0", op0),
+				add(&Job{Name: fmt.Sprintf("O2-history/kind=%d,pre=2,k=%d,op0=%d", kind, k-2, op0), Pkg: "roundrobin", Harness: "VerifC02History", Params: p("kind", kind, "k", k-2, "op0", op0, "pre", 2),
+					Bounds: fmt.Sprintf("as the plain history job but starting from two members with symbolic weights 0..2 (zeros produced by re-weighting), then %d administration calls", k-2)})
+				add(&Job{Name: fmt.Sprintf("O2-history/kind=%d,k=%d,op0=%d", kind, k, op0), Pkg: "roundrobin", Harness: "VerifC02History", Params: p("kind", kind, "k", k, "op0", op0, "pre", 0),
 					Bounds: fmt.Sprintf("%d administration calls (upsert with weight 0..2 / upsert without option / remove) on a universe of 4 URLs with 3 identities, checked after every call; then one rotation via NextServer or ServeHTTP with a URL-rewriting downstream handler; kind 0 = RoundRobin, 1 = through Rebalancer", k)})
 			}
 		}
